@@ -7,7 +7,7 @@ from . import common as C
 from . import core
 from . import asmdiff as A
 
-FAULTS = ["unknown-directive", "bad-char", "undefined", "range-now", "range-link", "assert-now", "assert-link", "die", "duplicate"]
+FAULTS = ["unknown-directive", "bad-char", "undefined", "range-now", "range-link", "range-link", "unsolved-link", "assert-now", "assert-link", "die", "duplicate"]
 
 
 def filler(rng):
@@ -45,8 +45,36 @@ def fault_line(rng, kind, uniq):
         pre = f"{pad}@db 1, "
         return [pre + "300 - 1"], (0, len(pre) + 1), []
     if kind == "range-link":
-        pre = f"{pad}@db 2, "
-        return [pre + f"late{uniq} + 1"], (0, len(pre) + 1), [f"@defl late{uniq}, 255"]
+        # every kind of deferred operand site: @db / @dw items (first, later, on a continued line),
+        # an immediate, an absolute operand
+        site = rng.randrange(7)
+        tail = [f"@defl late{uniq}, 255", f"@defl wide{uniq}, $ffff"]
+        if site == 0:
+            pre = f"{pad}@db 2, "
+            return [pre + f"late{uniq} + 1"], (0, len(pre) + 1), tail
+        if site == 1:
+            pre = f"{pad}@dw "
+            return [pre + f"wide{uniq} + 1, 5"], (0, len(pre) + 1), tail
+        if site == 2:
+            pre = f"{pad}@dw 2, 3, "
+            return [pre + f"wide{uniq} + 1"], (0, len(pre) + 1), tail
+        if site == 3:
+            pre = f"{pad}   "
+            return [f"{pad}@dw 2, \\", pre + f"wide{uniq} + 1"], (1, len(pre) + 1), tail
+        if site == 4:
+            pre = f"{pad}  lda #"
+            return [pre + f"late{uniq} + 1"], (0, len(pre) + 1), tail
+        if site == 5:
+            pre = f"{pad}  jmp "
+            return [pre + f"wide{uniq} + 1"], (0, len(pre) + 1), tail
+        pre = f"{pad}@db 1, \\"
+        return [pre, f"{pad}  2, late{uniq} + 1"], (1, len(pad) + 6), tail
+    if kind == "unsolved-link":
+        site = rng.randrange(3)
+        # every name is defined, the value does not exist (division by a zero known only at link time)
+        tail = [f"@defl num{uniq}, 8", f"@defl zer{uniq}, 0"]
+        pre = [f"{pad}@dw 1, ", f"{pad}@db ", f"{pad}  lda #"][site]
+        return [pre + f"num{uniq} / zer{uniq}"], (0, len(pre) + 1), tail
     if kind == "assert-now":
         pre = f"{pad}@assert "
         return [pre + "1 == 2"], (0, len(pre) + 1), []
@@ -140,7 +168,7 @@ def run(tier, seed):
             got = (im.get("file"), im.get("line"), im.get("col"))
             if got != expected:
                 bad = f"diagnostic points at {got}, the offending token is at {expected}"
-            elif kind not in ("undefined", "range-link", "assert-link"):
+            elif kind not in ("undefined", "range-link", "assert-link", "unsolved-link"):
                 gotchain = [(f, int(l), int(c)) for f, l, c in im.get("chain", [])]
                 if gotchain != chain:
                     bad = f"include chain {gotchain} differs from the including locations {chain}"
@@ -157,7 +185,7 @@ def run(tier, seed):
     return chk.finish(
         checker_cmd="cd /verif/lean && lake build Az65.Thm.C14 && #print axioms audit",
         trusted_base=C.TRUSTED,
-        rule="case = (a) random text over a token/whitespace/comment/continuation/multi-byte alphabet: every token's (line, column) from the real Lexer vs the Model; (b) multi-file program (include depth 0..3, root outside the working directory) with one fault of nine kinds planted at a known random position among blank lines, comments, continued lines and multi-line strings: file:line:col and the include chain parsed from the error text vs the planted position; distinct = distinct texts / (kind, depth, position)")
+        rule="case = (a) random text over a token/whitespace/comment/continuation/multi-byte alphabet: every token's (line, column) from the real Lexer vs the Model; (b) multi-file program (include depth 0..3, root outside the working directory) with one fault of ten kinds (link-time range faults at seven kinds of operand site) planted at a known random position among blank lines, comments, continued lines and multi-line strings: file:line:col and the include chain parsed from the error text vs the planted position; distinct = distinct texts / (kind, depth, position)")
 
 
 def replay(path):
